@@ -223,7 +223,7 @@ func (e *Env) Exec(a Action, raw map[string]any) (st Step) {
 			cctx, write := ctx.CacheContext()
 			entries := []frtypes.AllowedBidder{}
 			for _, en := range a.Entries {
-				entries = append(entries, frtypes.AllowedBidder{AuctionId: uint64(a.ID), Bidder: e.AddrStr(en.U), MaxBidAmount: sdkmath.NewInt(en.Cap)})
+				entries = append(entries, frtypes.AllowedBidder{AuctionId: uint64(a.ID), Bidder: e.spell(en.U, a.Upper), MaxBidAmount: sdkmath.NewInt(en.Cap)})
 			}
 			if err = e.K.AddAllowedBidders(cctx, uint64(a.ID), entries); err == nil {
 				write()
